@@ -94,8 +94,13 @@ def format_ranges_control_dependent(ctx, res, rule):
     res.floor(rule, "range-vector fill / merge sites in format()", sites, 4)
     # the deletion fold consumes exactly a declared range vector
     folds = [n for n in T.nodes(b["tree"], "mcall") if n["name"] == "fold" and id(n) not in inside]
-    if len(folds) == 1 and _iter_root(folds[0]["recv"], b) in range_vecs:
+    # ... or, spelled as a statement loop, `for r in <vec>.. { s.replace_range(r, "") }`
+    dfors = [n for n in T.nodes(b["tree"], "for") if id(n) not in inside and n is not loop
+             and any(x["name"] == "replace_range" for x in T.nodes(n["body"], "mcall"))]
+    if len(folds) == 1 and not dfors and _iter_root(folds[0]["recv"], b) in range_vecs:
         res.holds(rule, fn, "delete-loop-source", T.render(folds[0]["recv"]))
+    elif not folds and len(dfors) == 1 and _iter_root(dfors[0]["iter"], b) in range_vecs:
+        res.holds(rule, fn, "delete-loop-source", T.render(dfors[0]["iter"]))
     else:
         res.add(Finding(rule, fn, "delete-loop-source", "the deletion loop does not iterate one of the range vectors filled in the removed-position loop", loc=loc))
     # clean(): format(&removed, &get_removed_pos(&markers)) with markers returned by remover.remove
